@@ -48,19 +48,31 @@ FIELDS = {"Q1": [("q", 1, True)], "Q2": [("r", 2, True)], "QU": [("q", 1, False)
 TYPE_TEXT = {"QG": "QG<int>"}         # how a spec class is written in source (and named in the tracked table)
 
 
+SUBSCRIPTS = [0]     # spelling of array subscripts cycles through int literal, bit literal, bit variable, long literal
+
+
+def subscript(i):
+    """an element index 0/1 written as an int literal, a bit literal, a bit-typed variable or a long literal: the documented
+    integral subscript types all denote the same element"""
+    SUBSCRIPTS[0] += 1
+    if i not in (0, 1):
+        return "%d" % i
+    return ("%d", "%db", "%d", ("bz", "bo")[i], "%dL", "%d")[SUBSCRIPTS[0] % 6].replace("%d", str(i))
+
+
 def ref_text(vars_, v, e):
     var = vars_[v - 1]
     name = "v%d" % v
     if var["k"] == "q":
         return name, None
     if var["k"] == "a":
-        return "%s[%d]" % (name, e - 1), None
+        return "%s[%s]" % (name, subscript(e - 1)), None
     cls = var["cls"]
     pos = e
     for fname, w, _ in FIELDS[cls]:
         if pos <= w:
             own = fname if w == 1 else "%s[%d]" % (fname, pos - 1)
-            return "%s.%s" % (name, own), own
+            return "%s.%s" % (name, fname if w == 1 else "%s[%s]" % (fname, subscript(pos - 1))), own
         pos -= w
     raise ValueError("bad ref")
 
@@ -133,7 +145,8 @@ def render(beh):
         return "b%d" % nb[0]
 
     lines.append("function main() -> void {")
-    lines.append("int[] lut = {0, 1};")
+    lines.append("int[] lut = {0, 1}; bit bz = 0b; bit bo = 1b;")
+    SUBSCRIPTS[0] = 0
     scopes = [[]]         # plain qubit / qubit[2] locals in scope: (variable number, kind)
     for n, st in enumerate(beh["prog"], start=1):
         s = st["s"]
